@@ -171,6 +171,9 @@ func (ph *ParseHandler) ParseAll(b []byte) (int, error) {
 	var s string
 	running := true
 	for running {
+		var r, v string
+		var n uint32
+		var m bool
 		op, bb, err := opSplit(b)
 		b = bb
 		if err != nil {
@@ -183,43 +186,43 @@ func (ph *ParseHandler) ParseAll(b []byte) (int, error) {
 
 		switch op {
 		case CATCH:
-			r, n, m, bb, err := ParseCatch(b)
+			r, n, m, bb, err = ParseCatch(b)
 			b = bb
 			if err == nil {
 				err = ph.Catch(r, n, m)
 			}
 		case CROAK:
-			n, m, bb, err := ParseCroak(b)
+			n, m, bb, err = ParseCroak(b)
 			b = bb
 			if err == nil {
 				err = ph.Croak(n, m)
 			}
 		case LOAD:
-			r, n, bb, err := ParseLoad(b)
+			r, n, bb, err = ParseLoad(b)
 			b = bb
 			if err == nil {
 				err = ph.Load(r, n)
 			}
 		case RELOAD:
-			r, bb, err := ParseReload(b)
+			r, bb, err = ParseReload(b)
 			b = bb
 			if err == nil {
 				err = ph.Reload(r)
 			}
 		case MAP:
-			r, bb, err := ParseMap(b)
+			r, bb, err = ParseMap(b)
 			b = bb
 			if err == nil {
 				err = ph.Map(r)
 			}
 		case MOVE:
-			r, bb, err := ParseMove(b)
+			r, bb, err = ParseMove(b)
 			b = bb
 			if err == nil {
 				err = ph.Move(r)
 			}
 		case INCMP:
-			r, v, bb, err := ParseInCmp(b)
+			r, v, bb, err = ParseInCmp(b)
 			b = bb
 			if err == nil {
 				err = ph.InCmp(r, v)
@@ -235,19 +238,19 @@ func (ph *ParseHandler) ParseAll(b []byte) (int, error) {
 				err = ph.MSink()
 			}
 		case MOUT:
-			r, v, bb, err := ParseMOut(b)
+			r, v, bb, err = ParseMOut(b)
 			b = bb
 			if err == nil {
 				err = ph.MOut(r, v)
 			}
 		case MNEXT:
-			r, v, bb, err := ParseMNext(b)
+			r, v, bb, err = ParseMNext(b)
 			b = bb
 			if err == nil {
 				err = ph.MNext(r, v)
 			}
 		case MPREV:
-			r, v, bb, err := ParseMPrev(b)
+			r, v, bb, err = ParseMPrev(b)
 			b = bb
 			if err == nil {
 				err = ph.MPrev(r, v)
